@@ -27,6 +27,10 @@ def steps(token, key, frame, bad_token, bad_key):
         "auth_bad": ("auth", bad_token, bad_key, "ok", "ok"),
         "auth_silent": ("auth", token, key, "silent", "ok"),
         "clock_13h": ("adv", 13 * 3600 * 1000),
+        "clock_12h1s": ("adv", 12 * 3600 * 1000 + 1000),
+        "clock_25h": ("adv", 25 * 3600 * 1000),
+        "clock_49h": ("adv", 49 * 3600 * 1000 + 7000),
+        "clock_8d": ("adv", 8 * 24 * 3600 * 1000 + 3 * 3600 * 1000),
         "clock_life": ("adv", 61 * 1000),
     }
 
@@ -133,12 +137,19 @@ def run(ctx):
     thorough = ctx.tier == "thorough"
     alphabet = ["send", "send_silent", "send_error", "send_close", "send_garbage", "send_hs_silent", "auth_good", "auth_bad",
                 "auth_silent", "clock_13h", "clock_life", "refused"]
+    jumps = ["clock_12h1s", "clock_25h", "clock_49h", "clock_8d"]
     depth = 3 if thorough else 2
     for k in range(1, depth + 1):
         for names in itertools.product(alphabet, repeat=k):
             run_one(ctx, f"depth{k}", rng, list(names), with_life=False)
     for names in itertools.product(["send", "send_silent", "clock_life", "clock_13h", "auth_good", "refused", "send_close"], repeat=2):
         run_one(ctx, "lifetime_depth2", rng, list(names), with_life=True)
+    # authentication expiry for elapsed times of every magnitude (just past 12 h, more than a day, several days)
+    for j in jumps:
+        for pre in (["send"], [], ["auth_good"], ["send_silent"]):
+            run_one(ctx, "expiry_jumps", rng, pre + [j, "send"], with_life=False)
+            run_one(ctx, "expiry_jumps", rng, pre + [j, "send", j, "send"], with_life=False)
+    alphabet = alphabet + jumps
     for _ in range(150 if not thorough else 3000):
         names = [rng.choice(alphabet) for _ in range(rng.randrange(3, 13 if not thorough else 31))]
         run_one(ctx, "random", rng, names, with_life=rng.random() < 0.4)
